@@ -95,7 +95,40 @@ Fixpoint all_assignable (fx : list ty) (va : option ty) (i : nat) (args : list v
   end.
 
 Definition arity_error : val := VLispErr (VGoErr (s_ "wrong number of arguments")) None.
-Definition type_error : val := VLispErr (VGoErr (s_ "reflect: Call using value of wrong type")) None.
+
+(** reflect panics with a STRING ("reflect: Call using T as type U"), so `_recover` takes its
+    non-error branch and the message becomes the payload of the lisp error *)
+Definition go_type_name (v : val) : str :=
+  match v with
+  | VNil => s_ "types.MalType"          (* the zero Value of interface type MalType *)
+  | VBool _ => s_ "bool" | VInt _ => s_ "int" | VStr _ => s_ "string"
+  | VSym _ _ => s_ "types.Symbol" | VList _ _ => s_ "types.List" | VVec _ _ => s_ "types.Vector"
+  | VMap _ => s_ "types.HashMap" | VSet _ => s_ "types.Set"
+  | VFn _ _ _ _ => s_ "types.MalFunc" | VBuiltin _ => s_ "types.Func"
+  | VAtom _ => s_ "*concurrent.Atom"
+  | VGoErr _ => s_ "*errors.errorString" | VLispErr _ _ => s_ "lisperror.LispError"
+  | VOther t => t
+  end.
+Definition ty_name (t : ty) : str :=
+  match t with
+  | TAny => s_ "types.MalType" | TInt => s_ "int" | TBool => s_ "bool" | TString => s_ "string"
+  | TList => s_ "types.List" | TVector => s_ "types.Vector" | THashMap => s_ "types.HashMap"
+  | TSet => s_ "types.Set" | TSymbol => s_ "types.Symbol" | TMalFunc => s_ "types.MalFunc"
+  | TError => s_ "error" | TDeref => s_ "types.Dereferable" | TAtomPtr => s_ "*concurrent.Atom"
+  | TOtherTy => s_ "?"
+  end.
+Definition type_error (v : val) (t : ty) : val :=
+  VLispErr (VStr (s_ "reflect: Call using " ++ go_type_name v ++ s_ " as type " ++ ty_name t)) None.
+
+(** the first argument reflect rejects *)
+Fixpoint first_bad (fx : list ty) (va : option ty) (i : nat) (args : list val) : option (val * ty) :=
+  match args with
+  | [] => None
+  | a :: r => match param_ty fx va i with
+              | Some t => if assignable a t then first_bad fx va (S i) r else Some (a, t)
+              | None => None
+              end
+  end.
 
 (** `_args`/`_args_ctx` then reflect.Value.Call's own checks: is the Go function entered? *)
 Definition gate (s : bsig) (mn mx : Z) (args : list val) : outcome unit :=
@@ -105,8 +138,10 @@ Definition gate (s : bsig) (mn mx : Z) (args : list val) : outcome unit :=
   else if Nat.ltb (length args) (length (fixed s)) then Err arity_error          (* reflect: too few input arguments *)
   else if (match variadic s with None => Nat.ltb (length (fixed s)) (length args) | Some _ => false end)
        then Err arity_error                                                        (* reflect: too many input arguments *)
-  else if all_assignable (fixed s) (variadic s) 0 args then Ok tt
-  else Err type_error.
+  else match first_bad (fixed s) (variadic s) 0 args with
+       | None => Ok tt
+       | Some (v, t) => Err (type_error v t)
+       end.
 
 (** `_recover`: a panic inside the bound function becomes a catchable error; an error panic
     value stays reachable with errors.Is (the chain keeps it), any other value is the payload *)
